@@ -859,8 +859,8 @@ func (oc *oracle48) checkCommit(w *ledger.World, bc *ledger.BlockCtx, o *ledger.
 	explained := map[string]bool{}
 	for k := range staged {
 		k = strings.TrimSpace(k)
-		if _, ok := tgStorage.kind(k); ok {
-			explained[tgStorage.path(k)] = true
+		if _, ok := tgStorage.kind(k); ok || strings.HasPrefix(k, "cost.") {
+			explained[tgStorage.path(k)] = true // unknown cost.* keys are reported when they are staged
 		}
 	}
 	owner := ownerOf(pre[keyStorageConf], "OwnerId")
